@@ -315,8 +315,9 @@ def execute(case):
                     continue
                 if hook == 'on_playing' or (hook in ('on_pausing', 'on_paused', 'on_kill', 'on_killed') and pid in externally_paused):
                     continue  # run in the requester's code (the harness)
-                if pid in externally_paused and hook in ('on_entering', 'on_entered', 'on_exiting', 'on_exit_waiting', 'on_exit_running', 'on_terminated', 'on_close'):
-                    continue  # may belong to a kill carried out directly by the harness's call
+                if pid in externally_paused and hook in ('on_entering', 'on_entered', 'on_exiting', 'on_exit_waiting', 'on_exit_running', 'on_terminated', 'on_close', 'on_except', 'on_excepted'):
+                    continue  # may belong to a kill carried out directly by the harness's call (on_except: a hook plan that
+                    # requests a kill from inside that very transition fails it - all of it in the harness's call)
                 sites['hook'] = sites.get('hook', 0) + 1
                 if cur is not True:
                     v('current-in-hook', f'pid {pid}: hook {hook} ({pos}, occurrence {counts.get(hook)}): Process.current() is not the process')
